@@ -289,7 +289,7 @@ fn c08_socket_new() {
         Err(e) => {
             assert!(k >= 1 && k <= 6 && e == Error::DmaError, "C09: construction may only fail with DmaError when an allocation failed");
             assert!(dma_live_count() == 0, "C09: DMA region leaked by a failed construction");
-            assert!(ev_find(EV_SET_STATUS, Some(15), 0).is_none(), "C08: DRIVER_OK set by a failed construction");
+            assert!(ev_find(EV_SET_STATUS, Some(15), 0).is_none(), "C08/C09: DRIVER_OK set by a failed construction (the device is live while the memory of its queues is released)");
         }
         Ok(s) => {
             assert!(k == 0 || k == 7, "C09: construction succeeded although an allocation failed");
